@@ -164,6 +164,14 @@ def run(ctx):
             rt.violate("Input::" + prim, "no reviewed guard/advance entry for this primitive")
     rt.require(5, "primitives")
 
+    # ---- R01-PRIM: success <=> the input's own cursor moved (path enumeration over every primitive and override)
+    from .. import prims
+    rp_ = ctx.rule("R01-PRIM", "every consuming Input primitive (trait defaults, overrides in impls of Input, the &mut-self helpers they call): "
+                   "each path that reports success has written the input's own cursor (not a temporary copy), each path that reports failure "
+                   "has not (skip_until excepted, as in pest)")
+    prims.adv_rule(rp_, repo)
+    rp_.require(9, "primitives")
+
     # ---- R01-OPMAP
     ro = ctx.rule("R01-OPMAP", "for each pest operator form the generated type has the class tree of that operator (children in grammar order), "
                                "optimizer on and off")
